@@ -144,7 +144,12 @@ class static_view:
         if self.use_subpath:
             path_tuple = request.subpath
         else:
-            path_tuple = traversal_path_info(request.path_info)
+            # traversal_path_info decodes the raw WSGI PATH_INFO itself;
+            # request.path_info is already decoded and must not be decoded
+            # a second time
+            path_tuple = traversal_path_info(
+                request.environ.get('PATH_INFO', '/')
+            )
         path = _secure_path(path_tuple)
 
         if path is None:
